@@ -112,21 +112,33 @@ theorem findMethodArgs_cons_ne (n n' : Bytes) (ret : Schema) (rc : Nat) (asy : B
     (h : n ≠ n') : findMethodArgs (.cons n ret rc asy args rest) n' = findMethodArgs rest n' := by
   simp [findMethodArgs, h]
 
+theorem findMethodRet_cons_ne (n n' : Bytes) (ret : Schema) (rc : Nat) (asy : Bool) (args : SchemaL) (rest : MethodL)
+    (h : n ≠ n') : findMethodRet (.cons n ret rc asy args rest) n' = findMethodRet rest n' := by
+  simp [findMethodRet, h]
+
 /-- `diff_abi_def` of a definition with itself, method names distinct -/
 theorem diffMethods_refl_aux (full : MethodL) (rp : Bool) : ∀ (sub : MethodL), dataM sub = true → sub.names.Nodup →
-    (∀ n ∈ sub.names, findMethodArgs full n = findMethodArgs sub n) → diffMethods sub full rp = .same
-  | .nil, _, _, _ => by simp [diffMethods]
-  | .cons n ret rc asy args rest, hd, hn, hl => by
+    (∀ n ∈ sub.names, findMethodArgs full n = findMethodArgs sub n) →
+    (∀ n ∈ sub.names, findMethodRet full n = findMethodRet sub n) → diffMethods sub full rp = .same
+  | .nil, _, _, _, _ => by simp [diffMethods]
+  | .cons n ret rc asy args rest, hd, hn, hl, hr => by
     simp only [dataM, Bool.and_eq_true] at hd
     simp only [MethodL.names, List.nodup_cons] at hn
     have hhead : findMethodArgs full n = some args := by
       rw [hl n (by simp [MethodL.names])]; simp [findMethodArgs]
+    have hheadr : findMethodRet full n = some ret := by
+      rw [hr n (by simp [MethodL.names])]; simp [findMethodRet]
     have htail : ∀ n' ∈ rest.names, findMethodArgs full n' = findMethodArgs rest n' := by
       intro n' hn'
       rw [hl n' (by simp [MethodL.names, hn'])]
       exact findMethodArgs_cons_ne n n' ret rc asy args rest (fun e => hn.1 (e ▸ hn'))
-    simp only [diffMethods, hhead]
-    simp [diffArgs_refl args rp hd.1.2, DiffR.andThen, diffMethods_refl_aux full rp rest hd.2 hn.2 htail]
+    have htailr : ∀ n' ∈ rest.names, findMethodRet full n' = findMethodRet rest n' := by
+      intro n' hn'
+      rw [hr n' (by simp [MethodL.names, hn'])]
+      exact findMethodRet_cons_ne n n' ret rc asy args rest (fun e => hn.1 (e ▸ hn'))
+    have hret : diff ret ret true = .same := (diff_iff_shapeEq ret ret true hd.1.1 hd.1.1).mpr (shapeEq_refl ret hd.1.1)
+    simp only [diffMethods, hhead, hheadr]
+    simp [diffArgs_refl args rp hd.1.2, hret, DiffR.andThen, diffMethods_refl_aux full rp rest hd.2 hn.2 htail htailr]
 
 theorem diff_refl_plainRet (s : Schema) (h : plainRet s = true) : diff s s true = .same := by
   cases s with
@@ -135,7 +147,7 @@ theorem diff_refl_plainRet (s : Schema) (h : plainRet s = true) : diff s s true 
     | mk name ms sync send =>
       simp only [plainRet, Bool.and_eq_true, decide_eq_true_eq] at h
       simp only [diff, Bool.not_true, Bool.false_eq_true, if_false, Bool.and_not_self, Bool.or_self, diffDef]
-      exact diffMethods_refl_aux ms true ms h.1 h.2 (fun _ _ => rfl)
+      exact diffMethods_refl_aux ms true ms h.1 h.2 (fun _ _ => rfl) (fun _ _ => rfl)
   | _ =>
     all_goals first
       | (simp only [plainRet] at h
